@@ -1,19 +1,12 @@
 (* C09 - Walking a port tree enumerates exactly its dispatchable addresses.
    Only the property theorems, each closed by [exact]; model in
    Ports/WalkModel.v (walk_ports, walk_ports_recurse0, walk_ports_recurse,
-   bundle_foreach as coded), proofs in Ports/WalkProofs.v.
-
-   Full statement (kept visible; NOT proved in this generality):
-     forall root (well-formed structured tree, '#N' at any level),
-       walk None (map render_port root) [] = WOk (spec_addrs root) [47]
-   i.e. every leaf under every expansion exactly once, nothing else, in table
-   order.  It is proved below for all '#'-free trees (any depth, any width,
-   multi-component names, argument parts); for trees with '#N' the equality is
-   checked on every run by the tie and by the Python Spec oracle, and computed
-   in Coq for the examples at the end (the missing piece is the round trip of
-   snprintf("%d") / atoi, a lemma about NameModel.dec / atoi). *)
+   bundle_foreach as coded), proofs in Ports/WalkProofs.v, Ports/EnumProofs.v,
+   Ports/DecProofs.v, Ports/DispatchWalk.v. *)
 From Coq Require Import List ZArith Bool.
-From RtoscV Require Import Ports.NameModel Ports.PathModel Ports.WalkModel Ports.WalkProofs Ports.WalkRegress.
+From RtoscV Require Import Match.PatSpec Match.MatchModel Ports.NameModel Ports.PathModel Ports.WalkModel
+     Ports.WalkProofs Ports.WalkRegress Ports.DecProofs Ports.EnumProofs
+     Ports.DispatchModel Ports.DispatchProofs Ports.TreeProofs Ports.DispatchWalk.
 Import ListNotations.
 Local Open Scope Z_scope.
 
@@ -23,11 +16,39 @@ Theorem C09_buffer_restored : forall rt root buf out b,
   walk rt root buf = WOk out b -> b = norm buf.
 Proof. exact walk_buffer_restored. Qed.
 
-(* side condition [plain]: no '#' in any name *)
-Theorem C09_enumerates_partial : forall root,
+(* Every leaf under every concrete address - each '#N' at any level expanded
+   to 0..N-1, leaf names with any number of '#' - exactly once, nothing else,
+   in table order.  [sport_wf]: leaf names are sequences of literal text and
+   '#N' (0 <= N), sub-tree names sequences of components "text/" or "text#N/"
+   (at least one); literal text is non-empty and holds no '#' / ':'; what
+   follows a '#N' does not begin with a digit; the argument part is empty or
+   ":..." without '#'.  Genuinely excluded: a sub-tree name whose '#N' is not
+   followed by '/' (walk_ports_recurse0 writes a '/' after every index, see
+   notes/C09.md). *)
+Theorem C09_enumerates : forall root,
+  Forall sport_wf root ->
+  walk None (map render_port root) [] = WOk (spec_addrs root) [47].
+Proof. exact walk_enumerates. Qed.
+
+(* the '#'-free instance of stage 1 (side condition [plain]) *)
+Theorem C09_enumerates_hashfree : forall root,
   Forall plain root ->
   walk None (map render_port root) [] = WOk (spec_addrs root) [47].
 Proof. exact walk_enumerates_hashfree. Qed.
+
+(* what the walk prints with snprintf("%d") is read back exactly by atoi
+   (walk_ports, bundle_foreach) and by the matcher's saturating reader, for
+   every index *)
+Theorem C09_decimal_roundtrip : forall n rest,
+  0 <= n -> starts_with_digit rest = false ->
+  atoi (dec n ++ rest) = n /\ skip_digits (dec n ++ rest) = rest /\
+  (n <= umax -> read_u (dec n ++ rest) = n).
+Proof.
+  exact (fun n rest Hn Hr =>
+    match atoi_dec n rest Hn Hr with
+    | conj A (conj B _) => conj A (conj B (fun Hu => read_u_dec n rest (conj Hn Hu) Hr))
+    end).
+Qed.
 
 (* pruning: with a runtime object a sub-tree (one-component literal name) is
    skipped exactly when its child object is NULL or its 'enabled by' port
@@ -44,6 +65,18 @@ Theorem C09_pruning : forall walk_sub rt ids i qn qm qs buf,
   | None => walk_sub (Port qn qm (Some qs)) (ids ++ [i]) b'
   end.
 Proof. exact step_port_plain_subtree. Qed.
+
+(* the same for enumerated and multi-component sub-tree names ("a#3/b#2/c/"):
+   the sub-walk is attempted on every expansion of the name, in order; each is
+   skipped exactly when the oracle reports a NULL object or a false 'enabled
+   by' for THAT address, and visited otherwise *)
+Theorem C09_pruning_enumerated : forall walk_sub rt ids i cs a m qs buf,
+  Forall comp_wf cs -> cs <> [] -> args_wf a ->
+  let q := Port (flatten (comps_segs cs) ++ a) m (Some qs) in
+  step_port walk_sub rt ids i q buf =
+  run_all (fun b => if pruned rt b then WOk [] b else walk_sub q (ids ++ [i]) b)
+          (map (fun x => buf ++ x) (expand (comps_segs cs))) [] buf.
+Proof. exact step_port_subtree. Qed.
 
 (* a table disabled through its self: port reports its enabling port only *)
 Theorem C09_self_disabled : forall o ids n m t buf0,
@@ -76,3 +109,45 @@ Proof. exact walk_is_spec_example. Qed.
 Theorem C09_nonvacuous : Forall plain ex_plain /\
   spec_addrs ex_plain = [([0;0;0;0]%nat, [47;97;47;98;47;99;47;100;47;101])].
 Proof. exact ex_plain_ok. Qed.
+
+(* sport_wf is met by "a#3/b#2/c/" -> { "e", "v#2/w#11:i" } (138 addresses) *)
+Theorem C09_enumerates_nonvacuous : Forall sport_wf ex_wf /\ length (spec_addrs ex_wf) = 138%nat /\
+  map pname (map render_port ex_wf) = [[97;35;51;47;98;35;50;47;99;47]].
+Proof. exact ex_wf_ok. Qed.
+
+(* Every (port, address) the walk reports, sent as a message with a type
+   string the port admits, is dispatched to that very port: the callbacks
+   invoked are exactly the chain of ports along the reported index path - one
+   per level, objects handed down by the parents, the last one the reported
+   leaf - with and without a location buffer (hashed or linear lookup:
+   tree_ok covers both), and matches = 1.  Composition of C09_enumerates with
+   C05's matcher (path_complete) and C04's tree dispatch
+   (C04_exactly_one_leaf).  Side conditions: names of the shape the macros
+   produce ([dok]: sub-tree ports one component "text/" or "text#N/", N < 10^9,
+   7-bit literal text without : { * #, no two '#N' adjacent, a leaf name does
+   not end in '/'), and pairwise non-overlapping sibling names
+   ([table_disjoint]: no message is matched by two ports of one table - the
+   reading C04 uses).  hp / tid: any result of the perfect-hash search and any
+   table identities. *)
+Theorem C09_dispatchable : forall hp tid root id a ty o,
+  Forall sport_wf root -> Forall dok root -> table_disjoint root ->
+  tree_ok (to_tree hp tid root) ->
+  forall out b, walk None (map render_port root) [] = WOk out b ->
+  In (id, a) out -> leaf_admits root id ty ->
+  let t := to_tree hp tid root in
+  rev (log (dispatch t a ty true o)) = chain id t (strip a) ty o (Some [47]) /\
+  rev (log (dispatch t a ty false o)) = chain id t (strip a) ty o None /\
+  matches (dispatch t a ty true o) = 1 /\
+  leaf_count (chain id t (strip a) ty o (Some [47])) = 1 /\
+  length (chain id t (strip a) ty o (Some [47])) = length id.
+Proof. exact walk_dispatchable. Qed.
+
+(* the hypotheses hold for "a#12/" -> { "c#2/x:i" } and the reported pair
+   ([0;0], "/a11/c1/x") with type string "i" (24 pairs in all) *)
+Theorem C09_dispatchable_nonvacuous :
+  Forall sport_wf ex_d /\ Forall dok ex_d /\ table_disjoint ex_d /\
+  tree_ok (to_tree no_hash_search one_id ex_d) /\
+  leaf_admits ex_d [0%nat; 0%nat] [105] /\
+  (exists out b, walk None (map render_port ex_d) [] = WOk out b /\
+                 In ([0%nat; 0%nat], [47; 97; 49; 49; 47; 99; 49; 47; 120]) out /\ length out = 24%nat).
+Proof. exact ex_d_ok. Qed.
